@@ -453,20 +453,122 @@ class GBNFCompiler:
         # Try to preserve simple patterns
         # Handle [a-z]+, [A-Z]+, [0-9]+, etc.
         simple_char_class = re.match(r"^\[([^\]]+)\]([+*?]?)$", pattern)
-        if simple_char_class:
+        if simple_char_class and "\\" not in simple_char_class.group(1):
             char_class = simple_char_class.group(1)
             quantifier = simple_char_class.group(2) or "+"
             return f"[{char_class}]{quantifier}"
 
-        # For more complex patterns, create a safe approximation
-        # Replace . with [^\\n], preserve quantifiers
-        result = pattern.replace(".", "[^\\n]")
-
-        # If result is empty or just quantifiers, use permissive
-        if not result or result in ["+", "*", "?"]:
+        # For more complex patterns, translate the subset GBNF can express
+        # (literals, escaped punctuation, classes, groups, alternation, quantifiers, '.').
+        # Anything else degrades to the permissive pattern: raw regex text is not GBNF
+        # (a bare word would be read as a reference to an undefined rule).
+        result = self._translate_regex(pattern)
+        if result is None:
             return "[^\\n]+"
 
         return result
+
+    def _translate_regex(self, pattern: str) -> str | None:
+        """Translate a regex to a GBNF expression, or None if it is not expressible.
+
+        Args:
+            pattern: Regex pattern text with anchors already removed
+
+        Returns:
+            Parenthesised GBNF expression, or None when the pattern is malformed or
+            uses a feature outside the supported subset.
+        """
+        out: list[str] = []
+        literal: list[str] = []
+        depth = 0
+        i, n = 0, len(pattern)
+
+        def flush() -> None:
+            if literal:
+                out.append('"' + self._escape_literal("".join(literal)) + '"')
+                literal.clear()
+
+        def has_operand() -> bool:
+            return bool(literal) or (bool(out) and out[-1] not in ("(", "|"))
+
+        while i < n:
+            ch = pattern[i]
+            if ch == "\\":
+                # Escaped punctuation is a literal character; letter/digit escapes are regex classes
+                if i + 1 >= n or pattern[i + 1].isalnum():
+                    return None
+                literal.append(pattern[i + 1])
+                i += 2
+            elif ch == "[":
+                j = i + 1
+                if j < n and pattern[j] == "^":
+                    j += 1
+                body = [pattern[i:j]]
+                while j < n and pattern[j] != "]":
+                    if pattern[j] == "\\":
+                        # GBNF classes know \\\\ \\[ \\] ; other escaped punctuation stands for itself
+                        if j + 1 >= n or pattern[j + 1].isalnum() or pattern[j + 1] in "-^":
+                            return None
+                        body.append(pattern[j : j + 2] if pattern[j + 1] in "\\[]" else pattern[j + 1])
+                        j += 2
+                    elif pattern[j] in "[\n":
+                        return None
+                    else:
+                        body.append(pattern[j])
+                        j += 1
+                if j >= n or len(body) == 1:
+                    return None
+                flush()
+                out.append("".join(body) + "]")
+                i = j + 1
+            elif ch == "(":
+                if pattern.startswith("(?", i):
+                    return None
+                flush()
+                out.append("(")
+                depth += 1
+                i += 1
+            elif ch == ")":
+                if depth == 0 or not has_operand():
+                    return None
+                flush()
+                out.append(")")
+                depth -= 1
+                i += 1
+            elif ch == "|":
+                if not has_operand():
+                    return None
+                flush()
+                out.append("|")
+                i += 1
+            elif ch in "*+?" or (ch == "{" and re.match(r"\{\d+(,\d*)?\}", pattern[i:])):
+                if not has_operand():
+                    return None
+                quantifier = ch if ch != "{" else re.match(r"\{\d+(,\d*)?\}", pattern[i:]).group(0)  # type: ignore[union-attr]
+                i += len(quantifier)
+                if i < n and pattern[i] in "?+":
+                    return None  # lazy / possessive quantifiers
+                if literal:
+                    # A quantifier binds to the last character only
+                    last = literal.pop()
+                    flush()
+                    literal.append(last)
+                    flush()
+                out[-1] = out[-1] + quantifier
+            elif ch == ".":
+                flush()
+                out.append("[^\\n]")
+                i += 1
+            elif ch in "^$\n":
+                return None
+            else:
+                literal.append(ch)
+                i += 1
+
+        if depth != 0 or not has_operand():
+            return None
+        flush()
+        return "(" + " ".join(out) + ")"
 
     def _compile_dir(self) -> str:
         """Compile DIR constraint to path pattern."""
